@@ -1,6 +1,7 @@
 package main
 
 import (
+	"regexp"
 	"fmt"
 	"go/constant"
 	"go/token"
@@ -129,14 +130,26 @@ func runC18(c *Ctx) {
 	r.Rule("R18.2", "name conversion: conversion.dialectNameGoToDef and message.fieldGoToDef compute the same function (regexp \"([A-Z])\" → \"_${1}\", drop first, lower-case); dialectNameDefToGo is lower-case, then upper-case the letter after each \"_[a-z]\" match, "+
 		"capitalise the first letter (digits keep their underscore, so the runtime's msgGoToDef / fieldGoToDef invert it); processField emits mavname exactly when dialectNameGoToDef(dialectNameDefToGo(name)) != name", 3)
 	g2d := c.Fn("pkg/conversion", "dialectNameGoToDef")
-	f2d := c.Fn("pkg/message", "fieldGoToDef")
-	if g2d != nil && f2d != nil {
+	f2d := c.FnOpt("pkg/message", "fieldGoToDef")
+	if g2d != nil {
 		a, b := "", ""
 		if rs := retInstrs(g2d); len(rs) == 1 {
 			a = ex(rs[0].Results[0])
 		}
-		if rs := retInstrs(f2d); len(rs) == 1 {
-			b = ex(rs[0].Results[0])
+		if f2d != nil {
+			if rs := retInstrs(f2d); len(rs) == 1 {
+				b = ex(rs[0].Results[0])
+			}
+		} else if ini := c.FnOpt("pkg/message", "ReadWriter.Initialize"); ini != nil {
+			// the runtime's conversion written out where the field name is computed: the same expression over the Go name
+			reIn := regexp.MustCompile(`^strings\.ToLower\(\(regexp\.Regexp\)\.ReplaceAllString\(regexp\.MustCompile\("\(\[A-Z\]\)"\),[^,]+\.Name,"_\$\{1\}"\)\[1:\]\)$`)
+			for _, fn := range append([]*ssa.Function{ini}, ini.AnonFuncs...) {
+				for _, in := range allInstrs(fn) {
+					if v, ok := in.(ssa.Value); ok && reIn.MatchString(ex(v)) {
+						b = "strings.ToLower((regexp.Regexp).ReplaceAllString(regexp.MustCompile(\"([A-Z])\"),arg0,\"_${1}\")[1:])"
+					}
+				}
+			}
 		}
 		want := "strings.ToLower((regexp.Regexp).ReplaceAllString(regexp.MustCompile(\"([A-Z])\"),arg0,\"_${1}\")[1:])"
 		r.Check(a == b && a == want, "R18.2", "GoToDef agreement", c.Pos(g2d.Pos()), "generator's check and runtime's inversion are the same function", "conversion.dialectNameGoToDef ("+a+") and message.fieldGoToDef ("+b+") differ: the generator decides `mavname` with a different inversion than the runtime applies")
@@ -416,7 +429,27 @@ func runC18(c *Ctx) {
 	// R18.7 message names
 	r.Rule("R18.7", "message names: the XML name of a message is not written into the generated code, the runtime rebuilds it from the struct name in upper case (msgGoToDef) to compute CRC_EXTRA; so processMessage refuses, before building the message, "+
 		"every name that is not made of upper-case letters, digits and underscores (anchored pattern over that alphabet, or an un-folded comparison with the upper-cased inversion)", 1)
-	if pm := c.Fn("pkg/conversion", "processMessage"); pm != nil {
+	pm := c.FnOpt("pkg/conversion", "processMessage")
+	if pm == nil {
+		pm = c.FnOpt("pkg/conversion", "processDefinition") // processMessage written out in the loop over the messages
+	}
+	if pm == nil {
+		c.Fn("pkg/conversion", "processMessage") // reports the missing anchor
+	}
+	// the name of a message definition: field Name of conversion.definitionMessage
+	isMsgName := func(v ssa.Value) bool {
+		u, ok := v.(*ssa.UnOp)
+		if !ok || u.Op != token.MUL {
+			return false
+		}
+		fa, ok := u.X.(*ssa.FieldAddr)
+		if !ok {
+			return false
+		}
+		f, _ := fieldOfAddr(fa)
+		return f != nil && f.Name() == "Name" && fieldStructName(fa) == "conversion.definitionMessage"
+	}
+	if pm != nil {
 		r.Functions[fnQual(pm)] = true
 		ok, seen := false, []string{}
 		for _, iff := range ifsIn(pm) {
@@ -434,7 +467,7 @@ func runC18(c *Ctx) {
 			// (a) anchored pattern over [A-Z0-9_]
 			for _, in := range allInstrs(pm) {
 				call, isCall := in.(*ssa.Call)
-				if !isCall || !strings.HasPrefix(calleeName(&call.Call), "(regexp.Regexp).") || len(call.Call.Args) < 2 || !strings.HasSuffix(ex(call.Call.Args[1]), "arg1.Name") || !computedFrom(iff.Cond, call, 0, map[ssa.Value]bool{}) {
+				if !isCall || !strings.HasPrefix(calleeName(&call.Call), "(regexp.Regexp).") || len(call.Call.Args) < 2 || !isMsgName(call.Call.Args[1]) || !computedFrom(iff.Cond, call, 0, map[ssa.Value]bool{}) {
 					continue
 				}
 				rx := ex(call.Call.Args[0])
@@ -474,11 +507,11 @@ func runC18(c *Ctx) {
 			}
 			// (b) name compared, un-folded, with the upper-cased inversion
 			if b, isB := iff.Cond.(*ssa.BinOp); isB && b.Op == token.NEQ && errSucc == 0 {
-				x, y := ex(b.X), ex(b.Y)
-				if y == "arg1.Name" {
-					x, y = y, x
+				xv, yv := b.X, b.Y
+				if isMsgName(yv) {
+					xv, yv = yv, xv
 				}
-				if x == "arg1.Name" && strings.HasPrefix(y, "strings.ToUpper(") && strings.Contains(y, "arg1.Name") {
+				if y := ex(yv); isMsgName(xv) && strings.HasPrefix(y, "strings.ToUpper(") && strings.Contains(y, ex(xv)) {
 					ok = true
 				}
 			}
